@@ -478,6 +478,24 @@ class Program:
             return [usr]
         return list(self.by_pattern.get(usr, ()))
 
+    def closure_fn(self, lusr):
+        """The function record of a closure given the usr its lambda expression carries.  A generic lambda (`[](const auto& x)`) is a
+        template: the expression names the pattern, the body that was analysed is its single instantiation."""
+        if not lusr:
+            return None
+        if lusr in self.fns:
+            return self.fns[lusr]
+        inst = [u for u in self.by_pattern.get(lusr, ()) if u in self.fns]
+        if len(inst) == 1:
+            return self.fns[inst[0]]
+        # instantiations are keyed by their own pattern usr; fall back to position: same parent, same source position suffix
+        m = re.search(r"#L(\d+:\d+)$", lusr)
+        if m:
+            c = [f for f in self.fns.values() if f.kind == "lambda" and f.usr.endswith("#L" + m.group(1))]
+            if len(c) == 1:
+                return c[0]
+        return None
+
     def lambdas_in(self, fn):
         return [f for f in self.fns.values() if f.d.get("parentfn") == fn.usr]
 
